@@ -23,8 +23,6 @@ global size_of usize == 8;
 #[verifier::external_body]
 pub struct ExIoError(std::io::Error);
 
-pub assume_specification<T: Clone> [<[T]>::to_vec] (s: &[T]) -> (r: Vec<T>)
-    ensures r@ == s@;
 
 #[verifier::external_type_specification]
 #[verifier::external_body]
